@@ -112,7 +112,9 @@ def parseLogO (s : String) : Option LogO :=
 def failing (sc : Nat → Script) (ops : List Op) (o : Obs) : List String :=
   (if threading sc ops o then [] else ["threading"]) ++ (if order ops o then [] else ["order"]) ++
   (if onceOnly ops o then [] else ["once"]) ++ (if stored sc ops o then [] else ["stored"]) ++
-  (if getters sc ops o then [] else ["getters"])
+  (if getters sc ops o then [] else ["getters"]) ++
+  (if onceDue ops o then [] else ["once-due"]) ++ (if orderT ops o then [] else ["order-at-first-run"]) ++
+  (if gettersT sc ops o then [] else ["getter-at-return-time"])
 
 def eventOps : List String → Option String
   | "c13" :: scr :: ops => do
@@ -133,8 +135,14 @@ def eventOps : List String → Option String
       let snaps ← (if sn = "-" then some [] else (sn.splitOn ";").mapM parseSnap)
       let wmeta ← (splitList wm).mapM parseMeta
       let o : Obs := ⟨log, snaps, wmeta⟩
-      pure (if spec sc ops o then "pass" else "fail:" ++ String.intercalate "+" (failing sc ops o))
+      pure (if specT sc ops o then "pass" else "fail:" ++ String.intercalate "+" (failing sc ops o))
     | _ => none
+  | "c13self" :: scr :: ops => do
+    -- the tightened judge applied to the machine's OWN observation of this history
+    let sc ← parseScripts scr
+    let ops ← ops.mapM parseOp
+    let o := observe sc ops
+    pure (if specT sc ops o then "pass" else "fail:" ++ String.intercalate "+" (failing sc ops o))
   | _ => none
 
 end PlumVerif.C13
